@@ -1343,6 +1343,13 @@ fn crash_then_continue(ctx: &mut Ctx, case: &Case, r: &mut Rng, at: usize) {
         ctx.res.bump("crash_point_beyond_schedule");
         return;
     }
+    // an image whose log does not end at a line boundary can only come from an actor the scheduler had given
+    // up waiting for (in flight on an overloaded box) and that was writing while the copy ran; what a restart
+    // does with a torn tail is another property's business (C02 / C05)
+    if std::fs::read(image.path().join("data").join("events.jsonl")).map(|b| b.last().map(|c| *c != b'\n').unwrap_or(false)).unwrap_or(true) {
+        ctx.res.bump("crash_image_torn_tail_skipped");
+        return;
+    }
     ctx.res.oracle_checks += 1;
     let env = Env::open(image.path());
     let crashed = env.log_bytes();
@@ -1810,11 +1817,19 @@ fn main() {
     mixes.push((msgs(3), vec![vec![Op::CompactionAuto { th: 0, schedule: false }], vec![Op::Append { t: 4, th: 0 }]], 50));
     mixes.push((msgs(3), vec![vec![Op::CompactionAuto { th: 0, schedule: true }], vec![Op::Append { t: 13, th: 0 }, Op::Append { t: 4, th: 0 }]], 50));
     mixes.push((msgs(2), vec![vec![Op::CompactionAuto { th: 0, schedule: false }], vec![run(false, Some(0))], vec![Op::Branch { th: 0 }]], 40));
+    // (no calibration, no model program for a run: the mixed cases are skipped, nothing is concluded)
+    let calibrated = !run_codes(false).is_empty() && !run_codes(true).is_empty();
+    if !calibrated {
+        ctx.res.bump("run_calibration_failed_mixed_cases_skipped");
+    }
     for (setup, actors, cap) in mixes {
+        if !calibrated {
+            break;
+        }
         let case = Case { setup, actors };
         exhaustive(&mut ctx, &case, if thorough { 300 } else { cap }, "exhaustive_runs_and_store_writers");
     }
-    for _ in 0..(if thorough { 600 } else { 40 }) {
+    for _ in 0..(if !calibrated { 0 } else if thorough { 600 } else { 40 }) {
         let (setup, threads) = gen_setup(&mut r, false);
         let na = r.range(2, 4) as usize;
         let mut actors: Vec<Vec<Op>> = (0..na).map(|_| (0..r.range(1, 2)).map(|_| gen_op(&mut r, threads)).collect()).collect();
